@@ -112,10 +112,22 @@ def get_member(obj, member: 'IdentifierToken'):
     return getattr(obj, member.name)
 
 
+def get_item(obj, key):
+    """Gets an item of an object, equivalent to ``obj[key]`` for everything but classes.
+
+    Subscripting a class (e.g., ``list[x]``) creates a generic alias whose implementation reads private attributes of
+    :obj:`key` (``__origin__``, ``__qualname__``, ``__module__``, ``__typing_subst__``), so it is refused.
+
+    """
+    if isinstance(obj, type):
+        raise TypeError("a type is not subscriptable in an expression")
+    return obj[key]
+
+
 class Operator(Enum):
     """An enumeration of operators."""
     MEMBER_ACCESS = ('.', 1, lambda a, b: get_member(a, b), True, 2, False, (True, False))
-    GETITEM = ('[', 1, lambda a, b: a[b])
+    GETITEM = ('[', 1, lambda a, b: get_item(a, b))
     FUNCTION_CALL = ('→', 2, lambda a, b: a(*b), True, 2, True)
     UNARY_PLUS = ('+', 3, lambda a: a, False, 1, True)
     UNARY_MINUS = ('-', 3, lambda a: -a, False, 1, True)
